@@ -75,3 +75,162 @@ REG.spec('pilot.py:Pilot._update',
       ('dict-uid-state-kept', 'pilot_dict.uid == old(pilot_dict.uid) and pilot_dict.state == old(pilot_dict.state)'),
     ],
     serves    = ['C14'])
+
+
+# ------------------------------------------------------------------------------
+# PilotManager._update_pilot
+#
+PilotMap = T.Map(T.Str, PilotObj)
+REG.define('pmgr_inv(pilots)',
+    'forall(lambda u: implies(indom(pilots, u), at(pilots, u)._uid == u and is_pstate(at(pilots, u)._state)), Str)')
+
+REG.spec('pilot_manager.py:PilotManager._update_pilot',
+    params   = dict(pilot_dict=PilotDict, publish=T.Bool, advance=T.Bool),
+    defaults = dict(publish=False, advance=True),
+    self     = dict(_pilots=PilotMap),
+    ghost    = dict(pcb_log=T.List(PCbEvt)),
+    locals   = dict(passed=T.List(OStr)),
+    effects  = {'self.advance': ignore_call},
+    requires = ['pmgr_inv(self._pilots)', 'is_pstate(pilot_dict.state)', 'pilot_dict.state is not None'],
+    modifies = ['self._pilots', 'pilot_dict', 'pcb_log'],
+    raises   = {'ValueError': 'indom(self._pilots, pilot_dict.uid) and at(self._pilots, pilot_dict.uid)._state == DONE '
+                              'and pilot_dict.state in [FAILED, CANCELED]'},
+    frame_on_raise = False,
+    exc_ensures = {'ValueError': [('nothing-applied', 'self._pilots == old(self._pilots) and pcb_log == old(pcb_log)')]},
+    ensures  = [
+      ('ds-invariant', 'pmgr_inv(self._pilots)'),
+      ('same-pilots', 'forall(lambda u: indom(self._pilots, u) == indom(old(self._pilots), u), Str)'),
+      ('unknown-pilot-ignored',
+       'implies(not indom(old(self._pilots), old(pilot_dict.uid)), self._pilots == old(self._pilots) and pcb_log == old(pcb_log))'),
+      ('other-pilots-untouched',
+       'forall(lambda u: implies(indom(self._pilots, u) and u != old(pilot_dict.uid), at(self._pilots, u) == at(old(self._pilots), u)), Str)'),
+      ('never-backward',
+       'forall(lambda u: implies(indom(self._pilots, u), pv(at(self._pilots, u)._state) >= pv(at(old(self._pilots), u)._state)), Str)'),
+      ('final-never-left-for-non-final',
+       'forall(lambda u: implies(indom(self._pilots, u) and at(old(self._pilots), u)._state in FINAL, at(self._pilots, u)._state in FINAL), Str)'),
+      ('callbacks-never-see-an-earlier-state',
+       'forall(lambda k: implies(len(old(pcb_log)) <= k < len(pcb_log), pcb_log[k].uid == old(pilot_dict.uid) and '
+       'pv(pcb_log[k].state) >= pv(at(old(self._pilots), old(pilot_dict.uid))._state) and '
+       'pv(pcb_log[k].state) <= pv(at(self._pilots, old(pilot_dict.uid))._state)))'),
+      ('callbacks-in-order',
+       'forall(lambda k, l: implies(len(old(pcb_log)) <= k < l < len(pcb_log), pv(pcb_log[k].state) < pv(pcb_log[l].state)))'),
+      ('old-callbacks-kept', 'forall(lambda k: implies(0 <= k < len(old(pcb_log)), pcb_log[k] == old(pcb_log)[k]))'),
+    ],
+    loops = {
+      '1': ['indom(self._pilots, pid)', 'pid == old(pilot_dict.uid)', 'pilot_dict.uid == pid',
+            'pmgr_inv(self._pilots)',
+            'forall(lambda u: indom(self._pilots, u) == indom(old(self._pilots), u), Str)',
+            'forall(lambda u: implies(u != pid, at(self._pilots, u) == at(old(self._pilots), u)), Str)',
+            'current == at(old(self._pilots), pid)._state',
+            'implies(len(passed) > 0, current not in FINAL)',
+            'implies(i_s == 0, at(self._pilots, pid)._state == current)',
+            'implies(i_s > 0, at(self._pilots, pid)._state == passed[i_s - 1])',
+            'implies(target in [CANCELED, FAILED] and len(passed) > 0, len(passed) == 1 and passed[0] == target)',
+            'implies(target not in [CANCELED, FAILED], forall(lambda j: implies(0 <= j < len(passed), '
+            'pv(passed[j]) == pv(current) + 1 + j and passed[j] not in [CANCELED, FAILED])))',
+            'forall(lambda j: implies(0 <= j < len(passed), is_pstate(passed[j]) and passed[j] is not None and pv(passed[j]) > pv(current)))',
+            'forall(lambda j, j2: implies(0 <= j < j2 < len(passed), pv(passed[j]) < pv(passed[j2])))',
+            'len(pcb_log) == len(old(pcb_log)) + i_s',
+            'forall(lambda k: implies(0 <= k < len(old(pcb_log)), pcb_log[k] == old(pcb_log)[k]))',
+            'forall(lambda k: implies(len(old(pcb_log)) <= k < len(pcb_log), pcb_log[k].uid == pid and '
+            'pcb_log[k].state == passed[k - len(old(pcb_log))]))'],
+    },
+    serves = ['C14'])
+
+
+# ------------------------------------------------------------------------------
+# why the agent ended -> the pilot's final state (agent_0.py)
+#
+AgentCfg = T.Rec('AgentCfg', runtime=T.Opt(T.Int))
+CancelArg = T.Rec('CancelArg', uids=T.List(T.Str))
+CancelMsg = T.Rec('CancelMsg', arg=CancelArg, cmd=OStr)
+
+REG.spec('agent/agent_0.py:Agent_0.stop',
+    params   = dict(),
+    self     = dict(_final_cause=OStr),
+    effects  = {'super.stop': ignore_call, 'self._session.close': ignore_call},
+    modifies = ['self._final_cause'],
+    raises   = {},
+    # a cause that is already known (e.g. 'timeout') survives the stop
+    ensures  = [('known-cause-kept', 'implies(bool(old(self._final_cause)), self._final_cause == old(self._final_cause))'),
+                ('stop-without-cause-is-a-cancel', 'implies(not old(self._final_cause), self._final_cause == "cancel")')],
+    serves   = ['C14'])
+
+REG.spec('agent/agent_0.py:Agent_0._check_lifetime',
+    params   = dict(),
+    self     = dict(_final_cause=OStr, _cfg=AgentCfg, _starttime=T.Real),
+    returns  = T.Bool,
+    calls    = {'self.stop': 'agent/agent_0.py:Agent_0.stop'},
+    requires = ['self._final_cause is None or self._final_cause == "timeout"'],
+    modifies = ['self._final_cause'],
+    raises   = {},
+    ensures  = [('run-time-exceeded-means-timeout', 'implies(not result, self._final_cause == "timeout")'),
+                ('still-running-keeps-cause', 'implies(result, self._final_cause == old(self._final_cause))')],
+    serves   = ['C14'])
+
+REG.spec('agent/agent_0.py:Agent_0._ctrl_cancel_pilots',
+    params   = dict(msg=CancelMsg),
+    self     = dict(_final_cause=OStr, _pid=T.Str),
+    returns  = T.Bool,
+    calls    = {'self.stop': 'agent/agent_0.py:Agent_0.stop'},
+    effects  = {'self.publish': ignore_call},
+    requires = ['self._final_cause is None or self._final_cause == "cancel"'],
+    modifies = ['self._final_cause'],
+    raises   = {},
+    ensures  = [('named-pilot-is-canceled', 'implies(self._pid in msg.arg.uids, self._final_cause == "cancel" and not result)'),
+                ('other-pilots-ignore-it', 'implies(self._pid not in msg.arg.uids, self._final_cause == old(self._final_cause) and result)')],
+    serves   = ['C14'])
+
+
+# Agent_0.finalize maps the cause to the final state through a literal
+# if / elif chain and writes that state to killme.signal and into the final
+# pilot update: read from the AST and checked exhaustively
+import ast as _ast
+from pyvc.frontend import FunctionSource as _FS, ModuleEnv as _ME
+from pyvc.core import SpecError as _SE
+
+
+def _finalize_mapping():
+    f = _FS('agent/agent_0.py', 'Agent_0.finalize')
+    rps = _ME.get('states.py')
+    chain = None
+    for n in _ast.walk(f.node):
+        if isinstance(n, _ast.If) and isinstance(n.test, _ast.Compare) and \
+           isinstance(n.test.left, _ast.Attribute) and n.test.left.attr == '_final_cause':
+            chain = n; break
+    if chain is None:
+        raise _SE('finalize: cause -> state chain not found')
+    mapping, default = dict(), None
+    n = chain
+    while True:
+        cause = n.test.comparators[0].value
+        st = n.body[0]
+        if not (isinstance(st, _ast.Assign) and st.targets[0].id == 'state'):
+            raise _SE('finalize: unexpected branch body')
+        mapping[cause] = rps.lookup(st.value.attr)
+        if len(n.orelse) == 1 and isinstance(n.orelse[0], _ast.If):
+            n = n.orelse[0]; continue
+        if len(n.orelse) == 1 and isinstance(n.orelse[0], _ast.Assign):
+            default = rps.lookup(n.orelse[0].value.attr)
+        break
+    want = {'timeout': 'DONE', 'cancel': 'CANCELED', 'sys.exit': 'CANCELED'}
+    out = []
+    for cause, state in want.items():
+        out.append(dict(name='cause-%s-gives-%s' % (cause, state), ok=(mapping.get(cause) == state),
+                        note='finalize maps %r to %r' % (cause, mapping.get(cause)),
+                        witness=dict(cause=cause, state=mapping.get(cause))))
+    out.append(dict(name='any-other-cause-gives-FAILED', ok=(default == 'FAILED' and set(mapping) == set(want)),
+                    note='else branch gives %r; explicit causes %s' % (default, sorted(mapping)),
+                    witness=dict(default=default, causes=sorted(mapping))))
+    # the computed state is what is written to killme.signal and published
+    src = _ast.get_source_segment(f.src, f.node)
+    written = "fout.write('%s\\n' % state)" in src
+    published = any(isinstance(n, _ast.Dict) and any(isinstance(k, _ast.Constant) and k.value == 'state'
+                    and isinstance(v, _ast.Name) and v.id == 'state' for k, v in zip(n.keys, n.values))
+                    for n in _ast.walk(f.node))
+    out.append(dict(name='state-written-to-killme-signal', ok=written, note='killme.signal gets `state`'))
+    out.append(dict(name='state-published-in-final-update', ok=published, note="pilot dict carries 'state': state"))
+    return out
+
+
+REG.finite_check('C14.finalize-cause-to-state', _finalize_mapping, ['C14'], 'agent/agent_0.py:Agent_0.finalize')
